@@ -153,6 +153,14 @@ impl<'a> G<'a> {
             // untagged odd member names (duplicates simply overwrite): empty, blank, JSONPath-ish
             return (*self.r.pick(&["", " ", "0", "$", "~", ".", "[0]", "a.b", "$.x"])).to_string();
         }
+        if name && self.r.chance(3) {
+            // names that only LOOK like reserved / registered ones (none of them is reserved)
+            return (*self.r.pick(&[
+                "_sd_x", "_sd_jwt_profile", "_sd_alg2", "_sdx", "_SD", "_Sd", "sd_hash", "_sd_", "cnfx", "jwk", "kb_jwt", "disclosures", "protected",
+                "issuer", "issuing_country", "iss2", "expiry_date", "experience", "exp_", "iat_", "iata", "nbf2", "subject", "aud_x",
+            ]))
+            .to_string();
+        }
         if self.cfg.profile == Profile::Boundary && self.r.chance(40) {
             // byte length exactly at / next to a power of two, built from 1-, 2-, 3- or 4-byte
             // characters, with one character of another width at a random place
@@ -292,7 +300,18 @@ impl<'a> G<'a> {
             _ => self.r.below(8),
         };
         match k {
-            0 | 4 | 5 => Value::String(self.string(false)),
+            0 | 4 | 5 => {
+                if self.r.chance(6) {
+                    // whole-string values that look like reserved words / syntax of the format
+                    Value::String((*self.r.pick(&[
+                        "...", "_sd", "_sd_alg", "sha-256", "cnf", "jwk", "kb+jwt", "sd_hash", "null", "true", "false", "0", "[]", "{}", "~", ".", "$", "$.a",
+                        "\"", "\\", "\\u0000", "e30", "W10", "eyJhbGciOiJub25lIn0", "a~b", "a.b.c", "=",
+                    ]))
+                    .to_string())
+                } else {
+                    Value::String(self.string(false))
+                }
+            }
             1 => self.number(),
             2 => Value::Bool(self.r.chance(50)),
             3 => Value::Null,
@@ -431,7 +450,33 @@ pub fn gen_claims(r: &mut Rng, cfg: &GenCfg) -> Value {
     entries.push(("iss".into(), json!(cfg.iss)));
     entries.push(("exp".into(), json!(exp)));
     if g.r.chance(50) {
-        entries.push(("iat".into(), json!(cfg.now - g.r.below(100_000))));
+        // iat is an ordinary always-visible claim: past, present, post-dated, epoch, fractional
+        let iat = match g.r.below(10) {
+            0 => json!(cfg.now + 120 + g.r.below(600)),
+            1 => json!(cfg.now + 7 * 86_400),
+            2 => json!(0),
+            3 => json!((cfg.now as f64) - 0.5),
+            4 => json!(4_000_000_000u64),
+            _ => json!(cfg.now - g.r.below(100_000)),
+        };
+        entries.push(("iat".into(), iat));
+    }
+    if g.r.chance(12) {
+        // names from the JWT / OpenID / SD-JWT VC registries are ordinary claims for this library
+        let nm = *g.r.pick(&["vct", "status", "jti", "nonce", "typ", "kid", "amr", "acr", "azp", "auth_time", "updated_at", "address", "vc", "vp", "scope", "client_id", "sd_hash", "x5c"]);
+        let v = match g.r.below(4) {
+            0 => {
+                let t = g.tag();
+                json!({"status_list": {"idx": g.r.below(1000), "uri": "https://s.example/1"}, format!("k{t}"): [{"a": 1}, {}]})
+            }
+            1 => json!("https://credentials.example/identity_credential"),
+            2 => {
+                let t = g.tag();
+                json!([{format!("x{t}"): 1}, "y"])
+            }
+            _ => g.value(2),
+        };
+        entries.push((nm.to_string(), v));
     }
     if g.r.chance(30) {
         let s = g.string(false);
@@ -628,7 +673,7 @@ pub fn gen_strategy(r: &mut Rng, u: &Value, kind: StratKind) -> Strategy {
                     let base = render_path(p, r);
                     strs.push(format!("{base}[99]"));
                     strs.push(format!("{base}.zz.yy"));
-                    strs.push(format!("{base}x"));
+                    strs.push(format!("{base}\u{7f}no-such-suffix"));
                 }
                 strs.push("$.iss".into());
                 strs.push("$.exp".into());
